@@ -8,93 +8,6 @@ import Garnish.Lemmas.ParserB16
 namespace Garnish.Spec
 open Garnish Garnish.Gen Garnish.Model.Parser
 
-/-- an operator node `(d, tok)` has been inserted after the frame's tree `E` and `st1` is the open operand position behind
-    it: any complete operand yields the invariant for `insertC .. sub E` -/
-theorem operand_closeU {st : PState} {ug p : Option Nat} {base : Nat} {E : Tree} {re cb : Nat}
-    (hinv : UInv st ug p base E re cb) (d : Definition) (sd : SecDef) (tok : PToken) (q : Nat) (rtl : Bool)
-    (hq : priority d = some q) (hnb : isBracketDef d = false) (nodes' : Array ParseNode) (info : Info)
-    (hsz' : nodes'.size = st.nodes.size)
-    (hdefs : ∀ j, j < st.nodes.size → (nodes'[j]?).map (·.definition) = (st.nodes[j]?).map (·.definition))
-    (hout1 : ∀ j, j < base → (nodes'[j]?).map (setRight none) = (st.nodes[j]?).map (setRight none))
-    (hout2 : ∀ j, j + 1 < base → nodes'[j]? = st.nodes[j]?)
-    (htreeK : ∀ (arr : Array ParseNode) (sub : Tree) (ko : Nat), (∀ j, j < st.nodes.size → arr[j]? = nodes'[j]?) →
-      (∃ on, arr[st.nodes.size]? = some on ∧ on.parent = info.parent ∧ on.left = info.left ∧
-        on.right = some (st.nodes.size + 1) ∧ tokPos on = ko) →
-      IsTreeAt arr (some st.nodes.size) (some (st.nodes.size + 1)) sub →
-      ∃ re', FrameTree arr p re' (insertC cb (prioAt st.nodes) q rtl st.nodes.size ko sub E))
-    (st1 : PState)
-    (hn1 : st1.nodes = nodes'.push ⟨d, sd, info.parent, info.left, some (st.nodes.size + 1), tok⟩)
-    (hO1 : OpenB st1 ug) :
-    AllPrio st1.nodes ∧ aboveDef st1 = d ∧ st1.nodes.size = st.nodes.size + 1 ∧
-      ∀ (st2 : PState) (sub : Tree) (cb' : Nat), OpdRes st1 st2 sub cb' →
-        ∃ re', UInv st2 ug p base (insertC cb (prioAt st.nodes) q rtl st.nodes.size tok.col sub E) re' cb' ∧
-          (∀ j, j < st.nodes.size → (st2.nodes[j]?).map (·.definition) = (st.nodes[j]?).map (·.definition)) ∧
-          (∀ j, j < base → (st2.nodes[j]?).map (setRight none) = (st.nodes[j]?).map (setRight none)) ∧
-          (∀ j, j + 1 < base → st2.nodes[j]? = st.nodes[j]?) ∧
-          dfOf st2.nodes st.nodes.size = d := by
-  have hs1 : st1.nodes.size = st.nodes.size + 1 := by rw [hn1]; simp [hsz']
-  have hon1 : st1.nodes[st.nodes.size]? = some ⟨d, sd, info.parent, info.left, some (st.nodes.size + 1), tok⟩ := by
-    rw [hn1, Array.getElem?_push, if_pos hsz'.symm]
-  have hlt1 : ∀ j, j < st.nodes.size → st1.nodes[j]? = nodes'[j]? := by
-    intro j hj; rw [hn1, Array.getElem?_push, if_neg (by omega)]
-  have hprios1 : AllPrio st1.nodes := by
-    intro i nd hi
-    by_cases c1 : i < st.nodes.size
-    · have := hdefs i c1
-      rw [← hlt1 i c1, hi] at this
-      cases hsi : st.nodes[i]? with
-      | none => rw [hsi] at this; cases this
-      | some nd0 =>
-        rw [hsi] at this
-        simp only [Option.map_some, Option.some.injEq] at this
-        rw [this]; exact hinv.n.prios i nd0 hsi
-    · by_cases c2 : i = st.nodes.size
-      · subst c2; rw [hon1] at hi; injection hi with hi; subst hi; exact ⟨q, hq⟩
-      · have : st1.nodes[i]? = none := by apply Array.getElem?_eq_none; omega
-        rw [this] at hi; cases hi
-  have habove : aboveDef st1 = d := by
-    unfold aboveDef; rw [hs1, Nat.add_sub_cancel, hon1]; rfl
-  refine ⟨hprios1, habove, hs1, ?_⟩
-  intro st2 sub cb' hres
-  have hbase := hinv.n.pos
-  have hlt2 : ∀ j, j < st.nodes.size → st2.nodes[j]? = nodes'[j]? := by
-    intro j hj; rw [hres.below j (by omega), hlt1 j hj]
-  have hon2 : st2.nodes[st.nodes.size]? = some ⟨d, sd, info.parent, info.left, some (st.nodes.size + 1), tok⟩ := by
-    rw [hres.below _ (by omega), hon1]
-  have hnp1 : st1.nextParent = some st.nodes.size := by
-    rw [hO1.link, hO1.lastLeft_eq (by omega), hs1]; rfl
-  have hsub := hres.tree
-  rw [hnp1, hs1] at hsub
-  obtain ⟨re', htree', hfr'⟩ := htreeK st2.nodes sub tok.col hlt2 ⟨_, hon2, rfl, rfl, rfl, rfl⟩ hsub
-  have hdefs2 : ∀ j, j < st.nodes.size → (st2.nodes[j]?).map (·.definition) = (st.nodes[j]?).map (·.definition) := by
-    intro j hj; rw [hlt2 j hj]; exact hdefs j hj
-  have hdn : dfOf st2.nodes st.nodes.size = d := by simp [dfOf, hon2]
-  refine ⟨re', ?_, hdefs2, fun j hj => by rw [hlt2 j (by omega)]; exact hout1 j hj,
-    fun j hj => by rw [hlt2 j (by omega)]; exact hout2 j hj, hdn⟩
-  have hsz2 := hres.size
-  have hframe2 : FrameOK st2.nodes ug p base re' := by
-    cases hinv.n.frame with
-    | top re => exact .top re'
-    | bracket g re G pg hG hgl hpg hGr =>
-      obtain ⟨G', hG', hGr', hgl', pg', hpg'⟩ := hfr' g rfl
-      exact .bracket g re' G' pg' hG' hgl' hpg' hGr'
-  have hcbge := hres.cb_ge
-  refine ⟨⟨htree', ?_, by omega, hframe2, hres.prios⟩, hres.nnl, hres.hug hO1.hug, ?_, ?_, hres.prev6⟩
-  · rw [insertC_inorder, hinv.n.inord, hres.inord, hs1]
-    have e1 : st2.nodes.size - base = (st.nodes.size - base) + ((st2.nodes.size - (st.nodes.size + 1)) + 1) := by omega
-    have e2 : base + (st.nodes.size - base) = st.nodes.size := by omega
-    rw [e1, ← List.range'_append_1, List.range'_succ, e2]
-  · cases hres.bot with
-    | plain hl hb => exact .plain hl hb
-    | closed _ G h1 h2 h3 h4 h5 => exact .closed _ G h1 h2 h3 h4 (onSpine_insertC h5)
-  · have hcong : ∀ i ∈ E.inorder, dfOf st.nodes i = dfOf st2.nodes i := by
-      intro i hi
-      have := hdefs2 i ((hinv.n.mem i).mp hi).2
-      simp only [dfOf, this]
-    apply spineG_insertC (by omega) (by rw [hdn]; exact hnb) hres.spine
-    · intro hm; have := ((hinv.n.mem _).mp hm).2; omega
-    · exact hinv.spine.congr hcong
-
 /-- **the List operator** on a state that satisfies `UInv` -/
 theorem list_openU {st : PState} {ug p : Option Nat} {base : Nat} {E : Tree} {re cb : Nat}
     (hinv : UInv st ug p base E re cb) :
@@ -109,7 +22,7 @@ theorem list_openU {st : PState} {ug p : Option Nat} {base : Nat} {E : Tree} {re
           (∀ j, j < base → (st2.nodes[j]?).map (setRight none) = (st.nodes[j]?).map (setRight none)) ∧
           (∀ j, j + 1 < base → st2.nodes[j]? = st.nodes[j]?) ∧
           dfOf st2.nodes st.nodes.size = .list := by
-  obtain ⟨nodes', info, hpt, hir, hdefs, hout1, hout2, htreeK⟩ :=
+  obtain ⟨nodes', info, hpt, hir, hdefs, hout1, hout2, htreeK, _⟩ :=
     core_effectU hinv .list 220 false (some (st.nodes.size + 1)) rfl (by omega)
   have hsz' : nodes'.size = st.nodes.size := (parseToken_size_def hpt).1
   have hL : (listState st nodes' info).nodes[st.nodes.size]? =
@@ -198,13 +111,66 @@ theorem ref_skipK_ws : ∀ (ws : List PToken) (f : Frame) (stack : List Frame) (
     have : pos + 1 + ws.length = pos + (ws.length + 1) := by omega
     rw [this]
 
+/-- the same for the whitespace of the innermost frame: inside a group separators count -/
+theorem ref_fill_ws (inG : Bool) : ∀ (ws : List PToken) (f : Frame) (stack : List Frame) (pos : Nat) (rest : List PToken),
+    f.inGroup = inG → (∀ w ∈ ws, isGFill inG w = true) → (f.ws = true ∨ ∃ w ∈ ws, setsList w = true) →
+    refLoop Table.gen f stack pos (ws ++ rest) = refLoop Table.gen { f with ws := true } stack (pos + ws.length) rest := by
+  intro ws
+  induction ws with
+  | nil =>
+    intro f stack pos rest _ _ hc
+    rcases hc with hc | ⟨w, hw, _⟩
+    · have : { f with ws := true } = f := by cases f; simp_all
+      rw [this]; rfl
+    · cases hw
+  | cons w ws ih =>
+    intro f stack pos rest hig hws hc
+    have hw := hws w (List.mem_cons_self ..)
+    unfold isGFill at hw
+    have hstep : refStep Table.gen f stack pos w (ws ++ rest) =
+        .ok ({ f with ws := (if setsList w then true else f.ws) }, stack) := by
+      by_cases htr : isTriviaTok w = true
+      · unfold refStep
+        have hgen : Table.gen.define = getDefinition := rfl
+        rw [hgen]
+        unfold isTriviaTok at htr
+        simp only [Bool.or_eq_true, beq_iff_eq] at htr
+        rcases htr with (h | h) | h <;> rw [h] <;> simp only [getDefinition, setsList, isSepTok, h] <;> rfl
+      · have hsp : inG = true ∧ isSepTok w = true := by simpa [htr] using hw
+        have hs : (getDefinition w.type).2 = .subexpression := by
+          have := hsp.2; unfold isSepTok at this; simpa using this
+        have hsl : setsList w = true := by unfold setsList; simp [hsp.2]
+        have hgen : Table.gen.define = getDefinition := rfl
+        unfold refStep
+        rw [hgen, hsl]
+        generalize getDefinition w.type = ds at hs ⊢
+        obtain ⟨d, s⟩ := ds
+        simp only at hs ⊢
+        subst hs
+        simp [hig, hsp.1]
+    have hc' : (if setsList w then true else f.ws) = true ∨ ∃ w' ∈ ws, setsList w' = true := by
+      rcases hc with hc | ⟨w', hw', hwt⟩
+      · left; split <;> simp [hc]
+      · rcases List.mem_cons.mp hw' with e | e
+        · subst e; left; simp [hwt]
+        · exact Or.inr ⟨w', e, hwt⟩
+    have := ih { f with ws := (if setsList w then true else f.ws) } stack (pos + 1) rest hig
+      (fun x hx => hws x (List.mem_cons_of_mem _ hx)) hc'
+    simp only [List.cons_append, List.length_cons]
+    conv => lhs; unfold refLoop
+    rw [hstep]
+    simp only [Outcome.bind]
+    rw [this]
+    have : pos + 1 + ws.length = pos + (ws.length + 1) := by omega
+    rw [this]
+
 /-! ### operands in list mode -/
 
 /-- **the tokens `x` form a complete operand in list mode** (the list flag is set, the first token inserts the List node) -/
 def ListOpdOK (x : List PToken) : Prop :=
   ∀ (st : PState) (ug : Option Nat) (nodes' : Array ParseNode) (info : Info),
     underGroupOf st = .ok ug → adjustLastLeft st ug = .ok st → st.nextLastLeft = none → st.checkForList = true →
-    (st.previousSecondDef = .whitespace ∨ st.previousSecondDef = .annotation) →
+    (st.previousSecondDef = .whitespace ∨ st.previousSecondDef = .annotation ∨ st.previousSecondDef = .subexpression) →
     parseToken st.nodes.size .list st.lastLeft (some (st.nodes.size + 1)) st.nodes ug false = .ok (nodes', info) →
     info.right = some (st.nodes.size + 1) →
     OpenB (listState st nodes' info) ug → AllPrio (listState st nodes' info).nodes → CGOK (listState st nodes' info) →
@@ -267,9 +233,15 @@ theorem listOpd_value (a : PToken) (ha : isAtom10 a = true) : ListOpdOK [a] := b
       exact isTreeAt_node _ hVn rfl (.nil _) (.nil _) rfl
     · rw [hsL, hs2]
       simp only [Tree.inorder, List.nil_append]
-      have : st.nodes.size + 2 - (st.nodes.size + 1) = 1 := by omega
-      rw [this]; rfl
-    · exact .plain (by rw [hs2]; rfl) ⟨_, by rw [hs2]; exact hVn, rfl, prio10_not_groupLike hVprio⟩
+      exact sortedIn_range' (st.nodes.size + 1) 1 _ (by omega)
+    · refine .plain (by rw [hs2]; rfl) ⟨_, by rw [hs2]; exact hVn, rfl, prio10_not_groupLike hVprio⟩ ?_ ?_
+      · rw [hs2]; rfl
+      · intro nd hnd
+        rw [hs2] at hnd
+        have e : st.nodes.size + 2 - 1 = st.nodes.size + 1 := by omega
+        rw [e, hVn] at hnd
+        injection hnd with hnd; rw [← hnd]
+        rcases hsa with h | h <;> rw [h] <;> rfl
     · simp only [SpineG, if_neg (show st.nodes.size + 1 ≠ (listValue st nodes' info a).nodes.size by omega), hdfV]
       exact ⟨prio10_not_bracket hVprio, trivial⟩
     · intro i nd hi
